@@ -1,8 +1,111 @@
-(* C13 — Slice algebra helpers are exact.  Statements only; proofs in theories/. *)
-From DA Require Import PyBase Slicing.
+(* C13 — Slice algebra helpers are exact.
+   Statements only: every theorem is closed by `exact <lemma proved in theories/>`.
+   sel s n = the positions NumPy's x[s] selects on an axis of length n (PyBase.v);
+   pick l js = apply a second selection js to the list of positions l. *)
+From DA Require Import PyBase Slicing NormalizeFacts FuseFacts Slice1dFacts.
 Open Scope Z_scope.
 
-Example C13_placeholder_normalize_example :
-  sel (normalize_slice (mkslice (Some (-3)) (Some 10) (Some 1)) 10) 10 = sel (mkslice (Some (-3)) (Some 10) (Some 1)) 10.
-Proof. vm_compute. reflexivity. Qed.
-Print Assumptions C13_placeholder_normalize_example.
+(* --- slice normalization preserves the selected positions (all signs/steps) --- *)
+Theorem C13_normalize_slice_sel :
+  forall s n, 0 <= n -> step_of s <> 0 -> sel (normalize_slice s n) n = sel s n.
+Proof. exact normalize_slice_sel. Qed.
+
+Theorem C13_normalize_slice_normalized :
+  forall s dim, 0 <= dim -> step_of s <> 0 -> normalized (normalize_slice s dim) dim.
+Proof. exact normalize_slice_normalized. Qed.
+
+(* --- fusing two indices selects what applying them one after the other selects --- *)
+Theorem C13_fuse_slice_slice_exact :
+  forall a b c n, 0 <= n -> step_of a <> 0 -> step_of b <> 0 ->
+  fuse_slice_ss a b = Some c ->
+  pick (sel a n) (sel b (slice_len a n)) = sel c n.
+Proof. exact fuse_slice_ss_exact. Qed.
+
+Theorem C13_fuse_slice_int_exact :
+  forall a i p n, 0 <= n -> step_of a <> 0 -> fuse_slice_si a i = Some p ->
+  0 <= i < slice_len a n -> nth (Z.to_nat i) (sel a n) 0 = p.
+Proof. exact fuse_slice_si_exact. Qed.
+
+(* fuse_slice declines (NotImplementedError) exactly on negative start/stop/step *)
+Theorem C13_fuse_declines_only_negative :
+  forall a b, fuse_slice_ss a b = None <-> has_negative a \/ has_negative b.
+Proof. exact fuse_declines_iff. Qed.
+
+(* index tuples: element-wise exactness (no None / integer entries in a) *)
+Theorem C13_fuse_tuple_exact :
+  forall a b c ns,
+  length a = length b -> Forall is_slice a -> Forall (fun y => y <> INone) b ->
+  length ns = length a -> Forall (fun n => 0 <= n) ns ->
+  Forall (fun x => forall s, x = ISlice s -> step_of s <> 0) a ->
+  Forall (fun y => forall t, y = ISlice t -> step_of t <> 0) b ->
+  fuse_tuple a b = Some c ->
+  length c = length a /\
+  forall i, (i < length a)%nat ->
+    elem_spec (nth i a INone) (nth i b INone) (nth i c INone) (nth i ns 0).
+Proof. exact fuse_tuple_exact. Qed.
+
+(* --- _compose_slices: exact for the unit steps its only caller passes ... --- *)
+Theorem C13_compose_slices_unit_exact :
+  forall outer inner n, 0 <= n ->
+  (s_step outer = None \/ s_step outer = Some 1) ->
+  (s_step inner = None \/ s_step inner = Some 1) ->
+  sel (compose_slices outer inner n) n = pick (sel outer n) (sel inner (slice_len outer n)).
+Proof. exact compose_slices_unit_exact. Qed.
+
+(* ... and NOT exact for arbitrary steps (known finding F6; unreachable today) *)
+Theorem C13_compose_slices_general_refuted :
+  exists outer inner n, 0 <= n /\
+    sel (compose_slices outer inner n) n <> pick (sel outer n) (sel inner (slice_len outer n)).
+Proof. exact compose_slices_general_refuted. Qed.
+
+(* --- the per-block slice plan partitions exactly the selected positions, in order,
+       for every axis length, every chunking (zero-length chunks included) and every
+       normalized slice of either sign --- *)
+Theorem C13_slice1d_partition :
+  forall dim lengths idx, valid_chunks lengths dim -> normalized idx dim ->
+  plan_positions lengths (slice_1d_slice dim lengths idx) = sel idx dim.
+Proof. exact slice_1d_partition. Qed.
+
+(* every piece lies inside its block, no block is listed twice *)
+Theorem C13_slice1d_pieces_in_block :
+  forall dim lengths idx, valid_chunks lengths dim -> lengths <> [] -> normalized idx dim ->
+  NoDup (map fst (slice_1d_slice dim lengths idx)) /\
+  Forall (in_block lengths) (slice_1d_slice dim lengths idx).
+Proof. exact slice_1d_pieces_in_block. Qed.
+
+(* resulting chunk sizes = per-block piece lengths, in output order *)
+Theorem C13_new_blockdim_lengths :
+  forall dim lengths idx, valid_chunks lengths dim -> normalized idx dim -> idx <> colon ->
+  new_blockdim dim lengths idx =
+  map (fun e => Z.of_nat (length (abs_positions lengths e))) (slice_1d_slice dim lengths idx).
+Proof. exact new_blockdim_lengths. Qed.
+
+Theorem C13_new_blockdim_sum :
+  forall dim lengths idx, valid_chunks lengths dim -> normalized idx dim ->
+  zsum (new_blockdim dim lengths idx) = slice_len idx dim.
+Proof. exact new_blockdim_sum. Qed.
+
+(* --- non-vacuity: concrete non-trivial inputs meeting the hypotheses --- *)
+Example C13_ex_negative_step_zero_chunk :
+  valid_chunks [2; 0; 2; 3] 7 /\
+  normalize_slice (mkslice (Some (-2)) (Some (-9)) (Some (-2))) 7 = mkslice (Some 5) None (Some (-2)) /\
+  plan_positions [2; 0; 2; 3] (slice_1d_slice 7 [2; 0; 2; 3] (mkslice (Some 5) None (Some (-2)))) = [5; 3; 1].
+Proof. repeat split; try (vm_compute; reflexivity). repeat constructor; lia. Qed.
+
+Example C13_ex_F8_repaired :   (* x[-7::-1] on a length-5 axis selects nothing *)
+  sel (normalize_slice (mkslice (Some (-7)) None (Some (-1))) 5) 5 = [] /\
+  sel (mkslice (Some (-7)) None (Some (-1))) 5 = [].
+Proof. split; vm_compute; reflexivity. Qed.
+
+Print Assumptions C13_normalize_slice_sel.
+Print Assumptions C13_normalize_slice_normalized.
+Print Assumptions C13_fuse_slice_slice_exact.
+Print Assumptions C13_fuse_slice_int_exact.
+Print Assumptions C13_fuse_declines_only_negative.
+Print Assumptions C13_fuse_tuple_exact.
+Print Assumptions C13_compose_slices_unit_exact.
+Print Assumptions C13_compose_slices_general_refuted.
+Print Assumptions C13_slice1d_partition.
+Print Assumptions C13_slice1d_pieces_in_block.
+Print Assumptions C13_new_blockdim_lengths.
+Print Assumptions C13_new_blockdim_sum.
